@@ -70,6 +70,7 @@ var rdDocPool = []string{
 	`quoted "text" here`, `back\slash and \n not a newline`, "a `backquoted` word", "100%v done, %d%% of %s", "mid @name' placeholder look-alike", "it's an apostrophe",
 	"日本語 doc ✓ é", "+k=v", "+gengo:other=1", "@deprecated use Other", "ends with colon:", "a  double  space", "tab\tinside", "<html> & stuff", "/* not a comment */",
 	`trailing backslash \`, "plain words", "does something useful.", "{ braces } and [ brackets ]", "$dollar ${x}", "nul-free but odd \x7f",
+	"host:port or :port", "key:value pairs follow", "0:off 1:on", "unit:ms", "http://example.com/x", "a:b",
 }
 
 func genDoc(t *rapid.T, name string, isType bool) []string {
